@@ -624,6 +624,9 @@ func (rule *RuleExpression) checkIfCondition(str *String, workflowKey string) {
 	} else {
 		src := str.Value + "}}" // }} is necessary since lexer lexes it as end of tokens
 		line, col := str.Pos.Line, str.Pos.Col
+		if str.Quoted {
+			col++ // when the string is quoted like 'foo' or "foo", column should be incremented
+		}
 
 		p := NewExprParser()
 		expr, err := p.Parse(NewExprLexer(src))
